@@ -1,6 +1,7 @@
 /-
 C03 — A matching round clears every executable pair and never fails.
 -/
+import PamsLemmas.SourceTie
 import PamsLemmas.MarketLemmas
 import Mathlib.Data.Nat.Basic
 
@@ -78,5 +79,12 @@ example : remainExecutable demo.buys demo.sells = true := by decide +kernel
 example : (match demo.execution natOps with
     | .ok (m', fs) => (fs.map (fun f => (f.buyId, f.sellId, f.price, f.vol)), m'.buys.map (·.id), m'.sells.map (·.id))
     | .error _ => ([], [], [])) = ([(2, 0, 101, 2), (2, 1, 101, 1)], [3], []) := by decide +kernel
+
+/-- (T) `Market.remain_executable_orders` in the current sources carries the operators of the model
+`remainExecutable` (`<=` cross test, `!=`/`<` on the market volumes, `>=` level tests, `<=`) -/
+theorem source_executable_predicate :
+    Pams.Source.opsOf "Market.remain_executable_orders" =
+      ["==", "==", "is not", "is not", "is not", "is not", "<=", "not in", "not in", "!=", "<", ">=", ">=",
+       "==", "==", "<="] := by decide
 
 end Pams.C03
